@@ -8,6 +8,7 @@ in `St.trace` is what the correspondence compares with the interpreter.
 -/
 import Anko.Model.Eval
 import Anko.Proofs.EvalMono
+import Anko.Proofs.EvalProbe
 
 set_option linter.unusedSectionVars false
 set_option linter.unusedSimpArgs false
@@ -168,6 +169,79 @@ theorem nilco_left_nil_runs_right (n : Nat) (l r : Expr) (s : St)
     (hl : (evalExpr n l s).err = none) (hn : isNilRV (evalExpr n l s).rv = true) :
     evalExpr (n + 1) (.nilco l r) s = evalExpr n r (evalExpr n l s) := by
   simp [evalExpr, hl, hn]
+
+
+/-! ### whole expressions: every leaf once, in source order, at any depth
+
+`PE` (Proofs/EvalProbe.lean) are expression trees of any depth whose leaves are `probe(i)` calls, built with the strict
+forms `a + b`, `a - b`, `-a`, `[a, b][1]` and the lazy form `c ? t : f`.  `PE.leaves` is the list of leaves the language
+selects, in source order; `Ready s` says `probe` is bound to the recording stub and no error is pending. -/
+
+/-- THE ORDER THEOREM: evaluating a probe tree of any depth (with the fuel `PE.need` or more) appends exactly the selected
+leaves, in source order, to the probe trace - each once -, yields the arithmetic value and no error. -/
+theorem probe_tree_trace (e : PE) (fuel : Nat) (s : St) (hf : e.need ≤ fuel) (hs : Ready s) :
+    (evalExpr fuel e.tr s).trace = s.trace ++ (e.leaves.map Val.int).toArray ∧
+    (evalExpr fuel e.tr s).rv.v = .int e.val ∧ (evalExpr fuel e.tr s).err = none :=
+  let h := probe_tree_eval e fuel s hf hs
+  ⟨h.1, h.2.1, h.2.2.1⟩
+
+/-- ... and touches nothing else: scopes, current scope, deferred calls, closures, poll counter stay as they were -/
+theorem probe_tree_frame (e : PE) (fuel : Nat) (s : St) (hf : e.need ≤ fuel) (hs : Ready s) :
+    (evalExpr fuel e.tr s).scopes = s.scopes ∧ (evalExpr fuel e.tr s).cur = s.cur ∧ (evalExpr fuel e.tr s).defers = s.defers ∧
+    (evalExpr fuel e.tr s).closures = s.closures ∧ (evalExpr fuel e.tr s).polls = s.polls :=
+  let h := probe_tree_eval e fuel s hf hs
+  ⟨h.2.2.2.1, h.2.2.2.2.1, h.2.2.2.2.2.2.2.2.1, h.2.2.2.2.2.2.2.2.2, h.2.2.2.2.2.2.1⟩
+
+/-- the result does not depend on the fuel once it suffices -/
+theorem probe_tree_fuel_irrelevant (e : PE) (f1 f2 : Nat) (s : St) (h1 : e.need ≤ f1) (h2 : e.need ≤ f2) (hs : Ready s) :
+    (evalExpr f1 e.tr s).trace = (evalExpr f2 e.tr s).trace ∧ (evalExpr f1 e.tr s).rv.v = (evalExpr f2 e.tr s).rv.v := by
+  have a := probe_tree_trace e f1 s h1 hs
+  have b := probe_tree_trace e f2 s h2 hs
+  exact ⟨a.1.trans b.1.symm, a.2.1.trans b.2.1.symm⟩
+
+/-- all leaves of a tree, in source order -/
+def allLeaves : PE → List I64
+  | .leaf i => [i]
+  | .add a b => allLeaves a ++ allLeaves b
+  | .sub a b => allLeaves a ++ allLeaves b
+  | .neg a => allLeaves a
+  | .second a b => allLeaves a ++ allLeaves b
+  | .cond c t f => allLeaves c ++ allLeaves t ++ allLeaves f
+
+/-- a tree built from the strict forms only -/
+def Strict : PE → Prop
+  | .leaf _ => True
+  | .add a b => Strict a ∧ Strict b
+  | .sub a b => Strict a ∧ Strict b
+  | .neg a => Strict a
+  | .second a b => Strict a ∧ Strict b
+  | .cond _ _ _ => False
+
+/-- In a strict tree EVERY operand is evaluated: the trace is the list of all leaves - each exactly once, left to right. -/
+theorem strict_tree_evaluates_every_leaf_once (e : PE) (h : Strict e) : e.leaves = allLeaves e := by
+  induction e with
+  | leaf i => rfl
+  | add a b iha ihb => simp [PE.leaves, allLeaves, iha h.1, ihb h.2]
+  | sub a b iha ihb => simp [PE.leaves, allLeaves, iha h.1, ihb h.2]
+  | neg a iha => simp [PE.leaves, allLeaves, iha h]
+  | second a b iha ihb => simp [PE.leaves, allLeaves, iha h.1, ihb h.2]
+  | cond c t f => exact h.elim
+
+/-- The operands `?:` skips never run: the trace of `c ? t : f` is the trace of `c` followed by the trace of the chosen
+branch only. -/
+theorem ternary_runs_only_the_chosen_branch (c t f : PE) :
+    (PE.cond c t f).leaves = c.leaves ++ (if c.val != 0 then t.leaves else f.leaves) := rfl
+
+/-- the number of probe calls an evaluation makes is the number of selected leaves (never more: nothing runs twice) -/
+theorem probe_count (e : PE) (fuel : Nat) (s : St) (hf : e.need ≤ fuel) (hs : Ready s) :
+    (evalExpr fuel e.tr s).trace.size = s.trace.size + e.leaves.length := by
+  rw [(probe_tree_trace e fuel s hf hs).1]; simp
+
+/-! Non-vacuity: a ready state exists, and a concrete tree -/
+def readyState : St := (St.init none).define 0 "probe" ⟨false, .gofn "probe"⟩
+example : Ready readyState := ⟨by simp [readyState, St.getValue, St.define, St.init, St.lookupFrom, St.assocSet, List.lookup], rfl⟩
+example : (PE.cond (.sub (.leaf 2) (.leaf 2)) (.leaf 7) (.add (.leaf 8) (.neg (.leaf 9)))).leaves = [2, 2, 8, 9] := by decide
+example : Strict (.second (.add (.leaf 1) (.leaf 2)) (.neg (.leaf 3))) := ⟨⟨trivial, trivial⟩, trivial⟩
 
 /-! ### observable effects are never undone or repeated behind the program's back -/
 
